@@ -137,7 +137,7 @@ class Run:
         self.t0 = time.time()
         self.ties = []  # broken ties: dicts {tie, what}
         self.notes = {}
-        self.rundir = os.path.join(BUILD, "run", prop)
+        self.rundir = os.path.join(BUILD, "run", prop + ("-thorough" if tier == "thorough" else ""))
         os.makedirs(self.rundir, exist_ok=True)
         os.makedirs(os.path.join(BUILD, "bin"), exist_ok=True)
         self.driver = None
